@@ -31,7 +31,7 @@ def _bucket(params):
 def rule_sig(ctx):
     """Binding of every DSL constructor to its comparison function."""
     prog = ctx.prog
-    r = RuleResult("R-SIG", floor=30)
+    r = RuleResult("R-SIG", floor=20)
     binds = dsl_bindings(prog)
     callables = prog.module("callables")
     bound = set()
@@ -91,6 +91,12 @@ def rule_sig(ctx):
         else:
             inst["verdict"] = "name, parameters, kinds, storage convention and spec reachability agree"
             r.ok()
+    from ..hints import unresolved_dsl_bindings
+    for (c, f, name, call) in unresolved_dsl_bindings(prog):
+        r.instances.append({"constructor": f.qualname, "callable": f"callables.{name}", "verdict": "NOT A FUNCTION DEFINITION"})
+        r.fail(Finding("R-SIG", f"R-SIG|{f.qualname}|not-a-def", f"{f.file}:{f.node.lineno}",
+                       f"{f.qualname} binds `callables.{name}`, which is not defined with `def {name}(...)` in valida/callables.py (assigned / generated): its name and signature - "
+                       f"which the parser, the serialiser and condition equality rely on - cannot be read off the source", []))
     for name, fn in callables.functions.items():
         if name.startswith("_"):
             continue
@@ -178,7 +184,13 @@ class SigPath:
                         if not self._block(st.body if val else st.orelse, decided):
                             return False
                         continue
-                    self.undecidable.append(norm(st.test))
+                    # a test that also looks at other locals of the function (the argument value, say) is not a
+                    # pure signature dispatch: both sides are walked.  Anything else is a dispatch test the
+                    # evaluator cannot follow: the instance is undecided.
+                    local_names = {x.id for x in ast.walk(self.func.node) if isinstance(x, ast.Name) and isinstance(x.ctx, ast.Store)} | {p.name for p in self.func.params}
+                    others = {x.id for x in ast.walk(st.test) if isinstance(x, ast.Name) and x.id not in self.env and x.id in local_names}
+                    if not others:
+                        self.undecidable.append(norm(st.test))
                 a = self._block(st.body, False)
                 b = self._block(st.orelse, False)
                 continue
@@ -301,7 +313,7 @@ def rule_ladder(ctx):
     """Reader (from_spec) and writer (to_json_like) dispatch ladders evaluated for every
     constructor signature: exactly one non-raising branch, compatible shapes."""
     prog = ctx.prog
-    r = RuleResult("R-LADDER", floor=30)
+    r = RuleResult("R-LADDER", floor=20)
     reader = condition_parser(prog)
     writer = condition_writer(prog)
     expect = {"()": "None", "v": "single", "*": "list", "**": "dict"}
@@ -621,6 +633,26 @@ def rule_conv(ctx):
     from .shape import canon, single_return
     rvc = single_return(comb)
     good = "{self.FLATTEN_SYMBOL: [_v0.to_json_like() for _v0 in self.children]}"
+    if rvc is None:
+        # several statements: resolve the iterated operand list through its local assignments
+        rets = [n for n in ast.walk(comb.node) if isinstance(n, ast.Return) and n.value is not None]
+        if len(rets) == 1 and isinstance(rets[0].value, ast.Dict) and len(rets[0].value.values) == 1 and isinstance(rets[0].value.values[0], ast.ListComp) \
+                and isinstance(rets[0].value.values[0].generators[0].iter, ast.Name):
+            itv = rets[0].value.values[0].generators[0].iter.id
+            srcs = [norm(a.value) for a in ast.walk(comb.node) if isinstance(a, ast.Assign) and any(isinstance(t, ast.Name) and t.id == itv for t in a.targets)]
+            srcs += [norm(v) for a in ast.walk(comb.node) if isinstance(a, ast.Assign) and isinstance(a.targets[0], ast.Tuple) and isinstance(a.value, ast.Tuple)
+                     for t, v in zip(a.targets[0].elts, a.value.elts) if isinstance(t, ast.Name) and t.id == itv]
+            tup_src = [norm(a.value) for a in ast.walk(comb.node) if isinstance(a, ast.Assign) and isinstance(a.targets[0], ast.Tuple) and not isinstance(a.value, ast.Tuple)
+                       and any(isinstance(t, ast.Name) and t.id == itv for t in a.targets[0].elts)]
+            inst["operands iterated"] = {itv: srcs + tup_src}
+            other = [x for x in srcs + tup_src if x not in ("self.children", itv)]
+            if other:
+                r.fail(Finding("R-CONV", "R-CONV|conditions.ConditionBinaryOp.to_json_like|operands", f"{comb.file}:{rets[0].lineno}",
+                               f"the serialised operand list `{itv}` can come from {other} instead of `self.children`: anything but the two children themselves (e.g. a flattened chain) "
+                               f"loses the grouping, and the reader's left fold rebuilds a differently nested - unequal - combination", []))
+                return r
+            if srcs and all(x == "self.children" for x in srcs):
+                rvc = ast.parse(good, mode="eval").body
     if rvc is not None and canon(rvc) == good:
         r.ok()
     elif rvc is not None and isinstance(rvc, ast.Dict) and len(rvc.values) == 1 and isinstance(rvc.values[0], (ast.ListComp, ast.List)):
@@ -680,11 +712,15 @@ def rule_tokens(ctx):
         raise AnalysisError("from_spec dispatch branches on BINARY_OPS / CONDITION_DATUM_TYPES not found")
     # data-path spec keys: the first token must *be* "path", and the escape must look at every key
     pp = path_parser(prog)
-    pref = [n for n in ast.walk(pp.node) if isinstance(n, ast.Call) and isinstance(n.func, ast.Attribute) and n.func.attr in ("startswith", "endswith") and any(isinstance(a, ast.Constant) and a.value == "path" for a in n.args)]
-    eqs = [n for n in ast.walk(pp.node) if isinstance(n, ast.Compare) and isinstance(n.ops[0], (ast.Eq, ast.NotEq)) and any(isinstance(c, ast.Constant) and c.value == "path" for c in [n.left] + n.comparators)]
+    ptab = local_tables(prog, pp)
+
+    def is_path_word(a):
+        return (isinstance(a, ast.Constant) and a.value == "path") or (isinstance(a, ast.Name) and ptab.get(a.id) == "path")
+    pref = [n for n in ast.walk(pp.node) if isinstance(n, ast.Call) and isinstance(n.func, ast.Attribute) and n.func.attr in ("startswith", "endswith") and any(is_path_word(a) for a in n.args)]
+    eqs = [n for n in ast.walk(pp.node) if isinstance(n, ast.Compare) and isinstance(n.ops[0], (ast.Eq, ast.NotEq)) and any(is_path_word(c) for c in [n.left] + n.comparators)]
     inst = {"branch": "data-path key", "equality tests on 'path'": [norm(e) for e in eqs], "prefix tests": [norm(p_) for p_ in pref]}
     r.instances.append(inst)
-    if pref:
+    if pref and not eqs:
         r.fail(Finding("R-TOKENS", f"R-TOKENS|{pp.qualname}|prefix", f"{pp.file}:{pref[0].lineno}",
                        f"`{norm(pref[0])}`: a mapping is a data-path spec only if its key's first token *is* 'path'; a prefix test also turns literal mappings such as {{'pathname': ...}} into paths", []))
     elif eqs:
